@@ -195,7 +195,7 @@ func (x *Exec) judge() (viols []Viol, st Stats) {
 		} else {
 			e := x.waitErr
 			switch {
-			case isCtxErr(e):
+			case ownerOf(e) < 0 && isCtxErr(e): // identity first: a job's own error may claim (Is) to be anything
 				if !cancelled {
 					add("C07", "Wait returned %v but the context was never cancelled", e)
 				}
@@ -267,7 +267,7 @@ func (x *Exec) judge() (viols []Viol, st Stats) {
 		} else if !hasGoexit {
 			seen := map[int]int{}
 			for _, e := range entries {
-				if isCtxErr(e) {
+				if ownerOf(e) < 0 && isCtxErr(e) {
 					continue
 				}
 				o := ownerOf(e)
